@@ -145,3 +145,25 @@ def enumerations(tier, shard, nshards):
 
     yield ("one BGZF GAF with incompressible optional fields (compressed size > 64 KiB; > 1 MiB in the thorough tier)",
            incompressible(), True)
+
+    def long_segments():
+        # segments of 60 kb and 250 kb: stable records that lie in the middle of a long segment, end in it, or span it
+        if shard == (1 % nshards):
+            gfa = ("S\ts1\t*\tLN:i:1000\tSN:Z:chr1\tSO:i:0\tSR:i:0\nS\ts2\t*\tLN:i:60000\tSN:Z:chr1\tSO:i:1000\tSR:i:0\n"
+                   "S\ts3\t*\tLN:i:500\tSN:Z:chr1\tSO:i:61000\tSR:i:0\nS\ts4\t*\tLN:i:250000\tSN:Z:chr1\tSO:i:61500\tSR:i:0\n"
+                   "S\th1\t*\tLN:i:40000\tSN:Z:HG01#1#ctg\tSO:i:5000\tSR:i:1\n"
+                   "L\ts1\t+\ts2\t+\t0M\nL\ts2\t+\ts3\t+\t0M\nL\ts3\t+\ts4\t+\t0M\nL\ts1\t+\th1\t+\t0M\nL\th1\t+\ts3\t+\t0M\n")
+            spans = [(20000, 25000), (33000, 47000), (500, 1500), (60990, 61010), (100, 200), (61400, 200000), (150000, 150001),
+                     (999, 1001), (0, 311500), (311000, 311500), (16384, 16385), (32768, 49152)]
+            lines = []
+            for i, (a, b) in enumerate(spans):
+                n = b - a
+                strand = "+-"[i % 2]
+                lines.append("t%d\t%d\t0\t%d\t%s\tchr1\t311500\t%d\t%d\t%d\t%d\t60\tcg:Z:%d=" % (i, n, n, strand, a, b, n, n, n))
+                lines.append("u%d\t%d\t0\t%d\t+\t>chr1:%d-%d\t%d\t0\t%d\t%d\t%d\t60\tcg:Z:%d=" % (i, n, n, a, b, n, n, n, n, n))
+            lines.append("v0\t300\t0\t300\t+\t>HG01#1#ctg:20000-20300\t300\t0\t300\t300\t300\t60\tcg:Z:300=")
+            lines.append("v1\t600\t0\t600\t+\t>chr1:700-1000>HG01#1#ctg:5000-5300\t600\t0\t600\t600\t600\t60\tcg:Z:600=")
+            for bg in (None, {"cuts": [700, 1500], "empty": False}):
+                yield {"gfa": gfa, "gaf": lines, "bgzf": bg, "stable": True, "crlf": False, "via": "api"}
+
+    yield ("stable records inside, across and at the ends of segments of 40-250 kb", long_segments(), True)
